@@ -50,11 +50,12 @@ def postfilter(findings):
 def in_scope(f, files=None, funcs=None):
     if files is None and funcs is None:
         return True
-    mods = {f.func.module.relpath}
-    names = {f.func.key}
     if f.site is not None:
-        mods.add(f.site[0].module.relpath)
-        names.add(f.site[0].key)
+        mods = {f.site[0].module.relpath}
+        names = {f.site[0].key}
+    else:
+        mods = {f.func.module.relpath}
+        names = {f.func.key}
     if files is not None and mods & set(files):
         return True
     if funcs is not None and names & set(funcs):
@@ -63,8 +64,13 @@ def in_scope(f, files=None, funcs=None):
 
 
 def emit(run, R: DataflowRules, rules, files=None, funcs=None, rule_prefix="", where_filter=None):
-    """Turn findings of the given rule names into obligations of `run`.  Returns (n_ok, n_bad)."""
+    """Turn findings of the given rule names into obligations of `run`.  Findings inside a callee that
+    were decided by facts of one call site are grouped into ONE obligation for that call site.
+    Returns (n_ok, n_bad)."""
+    from ..astutil import norm, where as _where
+
     n_ok = n_bad = 0
+    groups = {}
     for f in R.findings:
         if f.rule not in rules:
             continue
@@ -72,16 +78,29 @@ def emit(run, R: DataflowRules, rules, files=None, funcs=None, rule_prefix="", w
             continue
         if where_filter is not None and not where_filter(f):
             continue
-        rule = rule_prefix + f.rule
-        if f.ok:
-            n_ok += 1
-            run.holds(rule, f.key(), f.where(), f.detail, facts=f.facts)
+        if f.site is not None:
+            caller, call = f.site
+            gk = (f.rule, f"{caller.key}:call({norm(call)[:90]})")
         else:
+            gk = (f.rule, f.key())
+        groups.setdefault(gk, []).append(f)
+    for (rule0, key), fs in groups.items():
+        rule = rule_prefix + rule0
+        bad = [f for f in fs if not f.ok]
+        first = (bad or fs)[0]
+        w = first.where()
+        if bad:
             n_bad += 1
-            facts = dict(f.facts)
-            if f.chain:
-                facts["call_chain"] = [f"{k}@{ln}" for k, ln in f.chain]
-            if f.entry is not None:
-                facts["analysed_entry"] = f.entry.key
-            run.violation(rule, f.key(), f.where(), f.detail, facts=facts)
+            facts = dict(first.facts)
+            if first.chain:
+                facts["call_chain"] = [f"{k}@{ln}" for k, ln in first.chain]
+            if first.entry is not None:
+                facts["analysed_entry"] = first.entry.key
+            if len(bad) > 1:
+                facts["constructs"] = [f"{b.func.qualname}:{b.construct}" for b in bad]
+            detail = first.detail if len(bad) == 1 else f"{first.detail} (+{len(bad) - 1} more in the same callee: {', '.join(b.construct for b in bad[1:4])})"
+            run.violation(rule, key, w, detail, facts=facts)
+        else:
+            n_ok += 1
+            run.holds(rule, key, w, first.detail if len(fs) == 1 else f"{first.detail} ({len(fs)} constructs)", facts=first.facts)
     return n_ok, n_bad
